@@ -87,3 +87,22 @@ fn message_matching_two_subscriptions_reaches_both_streams() {
     assert_eq!(acks.len(), 1);
     assert_eq!(b.run_result(), None);
 }
+
+#[test]
+fn one_message_for_two_dropped_streams_leaves_the_other_streams_registered() {
+    let mut b = Bench::connected(&[]);
+    let sa = subscribe(&mut b, "x/#", 1);
+    let sb = subscribe(&mut b, "x/+", 2);
+    let mut sc = subscribe(&mut b, "c", 3);
+    let mut sd = subscribe(&mut b, "d", 4);
+    drop(sa);
+    drop(sb);
+    b.feed(&publish(0, false, None, "x/1", &[1, 2], b"nobody")); // both addressees are gone
+    b.feed(&publish(0, false, None, "c", &[3], b"c1"));
+    b.feed(&publish(0, false, None, "d", &[4], b"d1"));
+    b.feed(&publish(0, false, None, "x/1", &[2, 1], b"nobody2"));
+    b.feed(&publish(0, false, None, "c", &[3], b"c2"));
+    assert_eq!(drain(&mut b, &mut sc), vec![("c".to_string(), b"c1".to_vec()), ("c".to_string(), b"c2".to_vec())]);
+    assert_eq!(drain(&mut b, &mut sd), vec![("d".to_string(), b"d1".to_vec())]);
+    assert_eq!(b.run_result(), None);
+}
